@@ -26,19 +26,20 @@ theorem match_terminates (fx real : Bool) (s t : Str) (ht : NUL ∉ t) :
 /-- **`pathmatch_eq_spec` (the loop)**: on the reversed canonical pattern `P` and the reversed canonical path `Y` the
     repaired loop returns `true` exactly if the documented rule `SpecMatch` holds: some part of `Y` that starts at the
     start of `Y` (the only choice for a "real" pattern) or directly behind a separator and ends at a separator or at the
-    end of `Y` is matched by the glob `P` (`**` any text, `*` any text without separator, `?` one non-separator). -/
-theorem pathmatch_eq_spec (real : Bool) (P Y : Str) (hP : NUL ∉ P) (hY : NUL ∉ Y) (h3 : noTripleStar P = true) :
+    end of `Y` is matched by the glob `P` (`**` any text, `*` any text without separator, `?` one non-separator; a run of
+    three or more `*` may be read in any way, e.g. as `**` followed by `*`). -/
+theorem pathmatch_eq_spec (real : Bool) (P Y : Str) (hP : NUL ∉ P) (hY : NUL ∉ Y) :
     ∃ b, matchStreams true real P.reverse Y.reverse = some b ∧ (b = true ↔ SpecMatch real P Y) := by
   refine ⟨_, matchStreams_eq true real _ _ (by simpa using hY), ?_⟩
-  exact search_iff_spec true real P Y hP hY (Or.inl rfl) h3
+  exact search_iff_spec true real P Y hP hY (Or.inl rfl)
 
 /-- the loop before the repair: the same statement holds exactly for the patterns in which (reading backwards) no star
     is directly followed by `?` or `*` -/
 theorem pathmatch_eq_spec_before_repair (real : Bool) (P Y : Str) (hP : NUL ∉ P) (hY : NUL ∉ Y)
-    (h3 : noTripleStar P = true) (hs : starOkR P.reverse = true) :
+    (hs : starOkR P.reverse = true) :
     ∃ b, matchStreams false real P.reverse Y.reverse = some b ∧ (b = true ↔ SpecMatch real P Y) := by
   refine ⟨_, matchStreams_eq false real _ _ (by simpa using hY), ?_⟩
-  exact search_iff_spec false real P Y hP hY (Or.inr hs) h3
+  exact search_iff_spec false real P Y hP hY (Or.inr hs)
 
 /-- what the loop accepts is always matched by the documented rule (both variants, every pattern) -/
 theorem pathmatch_sound (fx real : Bool) (P Y : Str) (hP : NUL ∉ P) (hY : NUL ∉ Y)
@@ -72,8 +73,7 @@ theorem pathmatch_sound (fx real : Bool) (P Y : Str) (hP : NUL ∉ P) (hY : NUL 
     documented domain, the repaired `PathMatch::match` decides exactly the documented rule -/
 theorem pathMatch_eq_spec (syn : Syntax) (mode : Filemode) (pattern path base : Str)
     (hp : CanonDomain (rawPattern syn pattern base).1 (rawPattern syn pattern base).2 = true)
-    (hx : CanonDomain (rawPath syn path base).1 (rawPath syn path base).2 = true)
-    (h3 : noTripleStar (canonPattern syn pattern base) = true) :
+    (hx : CanonDomain (rawPath syn path base).1 (rawPath syn path base).2 = true) :
     pathMatch .fixed syn mode pattern path base = true ↔ PathMatchSpec syn mode pattern path base := by
   unfold pathMatch PathMatchSpec
   by_cases he : pattern = []
@@ -130,7 +130,7 @@ theorem pathMatch_eq_spec (syn : Syntax) (mode : Filemode) (pattern path base : 
         have hfx : Variant.fixed.star = true := rfl
         rw [hfx, matchStreams_eq true _ _ _ (by simpa using hYn)]
         simp only [Option.getD_some]
-        rw [search_iff_spec true (isReal pattern) _ Y hPn hYn (Or.inl rfl) h3]
+        rw [search_iff_spec true (isReal pattern) _ Y hPn hYn (Or.inl rfl)]
         constructor
         · intro h; exact Or.inr h
         · rintro (h | h)
@@ -162,8 +162,9 @@ example : MatchOk .fixed .unix .regular "s/*.c".toList "s/a.c".toList "/b".toLis
 example : pathMatch .fixed .unix .regular "s/*.c".toList "s/a.c".toList "/b".toList = true ∧
     pathMatch .fixed .unix .regular "s/*.c".toList "s/t/a.c".toList "/b".toList = false := by decide
 example : pathMatch .fixed .unix .regular "**/a".toList "x//./a".toList [] = true := by decide
-example : noTripleStar "src/**/*.c".toList = true ∧ starOkR "src/**/*.c".toList.reverse = true ∧
-    starOkR "a?*".toList.reverse = false := by decide
+example : starOkR "src/**/*.c".toList.reverse = true ∧ starOkR "a?*".toList.reverse = false ∧
+    starOkR "a***b".toList.reverse = false := by decide
+example : pathMatch .fixed .unix .regular "a***b".toList "a/x/b".toList [] = true := by decide
 
 end Cppcheck.PathMatch
 
